@@ -264,7 +264,7 @@ def bucket_nonempty(ctx):
             r4.inst({'fn': fn, 'stored_bucket': 'computed', 'stored_only_when_not_empty': guarded}, ok=guarded, kind=(fn, 'computed', bb))
             if not guarded:
                 r4.fail('%s/empty-bucket' % fn, mirq.site(b, bb), 'a computed bucket is stored without a non-emptiness test of that bucket: an empty bucket changes hash() of an equal collection')
-    r4.need(6)
+    r4.need(4)
 
 
 KEYLOC = re.compile(r'builtin::(mapping|set)::KeyLocation$')
